@@ -258,8 +258,15 @@ fn parse_flags(flags: &str) -> Option<Option<(u16, u8)>> {
         Some(i) => (&flags[..i], Some(&flags[i + 1..])),
         None => (flags, None),
     };
-    if !pre.chars().all(|c| c == 'd' || c == 'x') {
-        return None;
+    // `d`, `x`, and `g<digit>`: an address group (peers of one group share ONE address and are told apart by host id
+    // only; `topology::AddrGuard`) - accepted in plan / stmt cases, nothing of the routing may depend on it
+    let mut cs = pre.chars();
+    while let Some(c) = cs.next() {
+        match c {
+            'd' | 'x' => {}
+            'g' if cs.next().is_some_and(|d| d.is_ascii_digit()) => {}
+            _ => return None,
+        }
     }
     match suf {
         None => Some(None),
@@ -284,6 +291,7 @@ thread_local! {
 }
 
 fn build(peers: &[PeerSpec], kss: &[Strat], tables: &[TableDecl]) -> ClusterState {
+    let _addr = AddrGuard::new(peers);
     let nodes: Vec<NodeSpec> = peers
         .iter()
         .map(|p| NodeSpec {
@@ -748,7 +756,7 @@ fn run_hist(w: &[&str], ctx: &mut Ctx) -> String {
     if acc && (ops.iter().any(|o| matches!(o, HOp::Refresh(_))) || all.iter().any(|p| p.flags.contains('d'))) {
         return "bad-case".into();
     }
-    if all.iter().any(|p| parse_flags(&p.flags).is_none())
+    if all.iter().any(|p| parse_flags(&p.flags).is_none() || p.flags.contains('g'))
         || all.iter().any(|p| all.iter().any(|q| q.id == p.id && parse_flags(&q.flags) != parse_flags(&p.flags)))
     {
         return "bad-case".into();
@@ -847,7 +855,7 @@ fn run_hist(w: &[&str], ctx: &mut Ctx) -> String {
     // the tablet owns (a, b], i.e. [a+1, b]; b <= a or a negative shard is refused
     let decode = |b: &[u8]| -> Option<TabletSpec> {
         let mut p = 0usize;
-        let mut cell = |p: &mut usize| -> Option<Vec<u8>> {
+        let cell = |p: &mut usize| -> Option<Vec<u8>> {
             let n = i32::from_be_bytes(b.get(*p..*p + 4)?.try_into().ok()?);
             *p += 4;
             if n < 0 {
@@ -1775,6 +1783,21 @@ fn random_flags(rng: &mut Rng, peers: &mut [PeerSpec]) {
 
 /// Per-node sharders appended to the flags: different shard counts / msb_ignore per node, some nodes without shards.
 fn add_sharders(rng: &mut Rng, peers: &mut [PeerSpec]) {
+    add_sharders_grouped(rng, peers, false)
+}
+
+/// `groups`: one case in six first puts 2..3 peers behind ONE address (flag `g<k>`; a NAT / proxy address in front of
+/// several nodes): host ids, not addresses, identify nodes - replica sets, plans and shards must not change.
+fn add_sharders_grouped(rng: &mut Rng, peers: &mut [PeerSpec], groups: bool) {
+    if groups && peers.len() >= 2 && rng.chance(1, 6) {
+        let k = rng.below(3);
+        let m = rng.range(2, 3.min(peers.len() as i64)) as usize;
+        let mut idx: Vec<usize> = (0..peers.len()).collect();
+        rng.shuffle(&mut idx);
+        for i in idx.into_iter().take(m) {
+            peers[i].flags.push_str(&format!("g{}", k));
+        }
+    }
     const NRS: [u16; 14] = [1, 2, 3, 4, 5, 6, 7, 8, 12, 16, 255, 256, 1000, 65535];
     const MSBS: [u8; 7] = [0, 0, 1, 12, 12, 31, 63];
     let mode = rng.below(8);
@@ -2403,7 +2426,7 @@ pub fn generate(rng: &mut Rng, tier: Tier, emit0: &mut dyn FnMut(String)) {
         let ks_s = fmt_strategies(&kss);
         for _ in 0..2 {
             random_flags(rng, &mut peers);
-            add_sharders(rng, &mut peers);
+            add_sharders_grouped(rng, &mut peers, true);
             let topo = fmt_topology(&peers);
             for _ in 0..5 {
                 let cfg = format!(
@@ -2468,7 +2491,7 @@ pub fn generate(rng: &mut Rng, tier: Tier, emit0: &mut dyn FnMut(String)) {
             gen_strategy(rng, &peers),
         ];
         random_flags(rng, &mut peers);
-        add_sharders(rng, &mut peers);
+        add_sharders_grouped(rng, &mut peers, true);
         let ring_toks = query_tokens(&peers);
         let tables: Vec<TableDecl> = if rng.chance(1, 3) { vec![TableDecl { ks: 1, tbl: 0, tablets: gen_tablets(rng, &peers, &ring_toks) }] } else { vec![] };
         let topo = fmt_topology(&peers);
